@@ -28,7 +28,7 @@ type c04Case struct {
 func c04Gen(t *rapid.T, r *h.Rec) c04Case {
 	av, onEx, onCl := avoidOpts(r)
 	c := c04Case{
-		Spec: synth.GenSQL(t, &synth.SQLOpts{Avoid: av, OnExclude: onEx, OnClass: onCl, MaxTables: 3, JSONHeavy: true}),
+		Spec: synth.GenSQL(t, &synth.SQLOpts{Avoid: av, OnExclude: onEx, OnClass: onCl, MaxTables: 3, JSONHeavy: true, PayloadEmbeds: true}),
 		Seed: int64(rapid.IntRange(1, 1<<30).Draw(t, "childSeed")), Checks: childChecks(25, 80),
 	}
 	c.Sel = rapid.SliceOfN(rapid.IntRange(0, 1<<20), 48, 48).Draw(t, "selectors")
